@@ -280,6 +280,11 @@ class Check(FormulaCheck):
             outcomes = {}
             for sep in SEPS:
                 f = 'REC(' + sep.join(t for t, _ in slots) + ')'
+                if rnd.random() < 0.3:
+                    # an evaluation that fails half-way through a separator-delimited sequence must leave nothing behind on this parser
+                    broken = rnd.choice(['{1,2;3,4)', 'REC(1,2;3,4}', '{1,2;3,4;5 6}', 'REC(1;2', '{1\\2;3\\4', 'REC({1,2;3,4};', 'BOOMX(1,2;3,4)', '{1;2;', 'REC(1,{2;3)', f[:rnd.randint(1, len(f))] + ')'])
+                    self.parse(broken)
+                    rec.count('slots.after_a_failed_evaluation')
                 r, log = self.run_logged(f)
                 rec.case()
                 recs = [e for e in log if e[0] == 'REC']
